@@ -124,7 +124,7 @@ class Comparison(MatchCriteria):
         """
         use_calibrated_value = True  # Default
         if 'useCalibratedValue' in element.attrib:
-            use_calibrated_value = element.attrib['useCalibratedValue'].lower() == 'true'
+            use_calibrated_value = element.attrib['useCalibratedValue'].lower() in ('true', '1')
 
         value = element.attrib['value']
 
@@ -286,7 +286,7 @@ class Condition(MatchCriteria):
         parameter_name = element.attrib['parameterRef']
         use_calibrated_value = True  # Default
         if 'useCalibratedValue' in element.attrib:
-            use_calibrated_value = element.attrib['useCalibratedValue'].lower() == 'true'
+            use_calibrated_value = element.attrib['useCalibratedValue'].lower() in ('true', '1')
         return parameter_name, use_calibrated_value
 
     @classmethod
